@@ -1,80 +1,1 @@
-/// Test generated for harness `verif::c13::c13_size` 
-///
-/// Check for `cover`: "cover condition: r.is_ok()"
-
-#[test]
-fn kani_concrete_playback_c13_size_15610575615990033400() {
-    let concrete_vals: Vec<Vec<u8>> = vec![
-        // 255
-        vec![255],
-        // 0
-        vec![0],
-        // 255
-        vec![255],
-        // 0
-        vec![0],
-        // 255
-        vec![255],
-        // 0
-        vec![0],
-        // 255
-        vec![255],
-        // 0
-        vec![0],
-    ];
-    kani::concrete_playback_run(concrete_vals, crate::verif::c13::c13_size);
-}
-
-/// Test generated for harness `verif::c13::c13_size` 
-///
-/// Check for `assertion`: "attempt to add with overflow"
-
-#[test]
-fn kani_concrete_playback_c13_size_7440535670560752853() {
-    let concrete_vals: Vec<Vec<u8>> = vec![
-        // 255
-        vec![255],
-        // 255
-        vec![255],
-        // 255
-        vec![255],
-        // 255
-        vec![255],
-        // 255
-        vec![255],
-        // 255
-        vec![255],
-        // 255
-        vec![255],
-        // 255
-        vec![255],
-    ];
-    kani::concrete_playback_run(concrete_vals, crate::verif::c13::c13_size);
-}
-
-/// Test generated for harness `verif::c13::c13_size` 
-///
-/// Check for `assertion`: "attempt to multiply with overflow"
-
-#[test]
-fn kani_concrete_playback_c13_size_16929729347280540561() {
-    let concrete_vals: Vec<Vec<u8>> = vec![
-        // 255
-        vec![255],
-        // 1
-        vec![1],
-        // 0
-        vec![0],
-        // 0
-        vec![0],
-        // 0
-        vec![0],
-        // 0
-        vec![0],
-        // 0
-        vec![0],
-        // 0
-        vec![0],
-    ];
-    kani::concrete_playback_run(concrete_vals, crate::verif::c13::c13_size);
-}
+// placeholder: overwritten by /verif/check when a counterexample is replayed
